@@ -62,6 +62,9 @@ class ExprMixin:
                 return VModule(r[1])
             if r[0] == "extern":
                 return VOpaque(f"{r[1]}.{r[2]}")
+        fi = self.spec_info(name)
+        if fi is not None:
+            return VFunc("user", fi)
         if name in BUILTINS:
             return VFunc("builtin", name)
         if name in ("True", "False"):
@@ -141,11 +144,31 @@ class ExprMixin:
                     return VBool(True)
             return VBool(z3.And(*ts) if is_and else z3.Or(*ts))
         if pure:
-            vals = [self.ev(x, p, module) for x in e.values]
-            if all(isinstance(v, (VBool,)) for v in vals) or p.spec:
+            # operands are evaluated left to right, each one under the assumption that the previous ones did not decide
+            # the result (Python's short-circuit): facts learnt while evaluating an operand are kept as implications
+            vals, assumed = [], []
+            for x in e.values:
+                n0 = len(p.pc)
+                for a_ in assumed:
+                    p.pc.append(a_)
+                v = self.ev(x, p, module)
+                new = p.pc[n0 + len(assumed):]
+                del p.pc[n0:]
+                if assumed:
+                    guard = z3.And(*assumed) if len(assumed) > 1 else assumed[0]
+                    p.pc.extend(z3.Implies(guard, f) for f in new)
+                else:
+                    p.pc.extend(new)
+                vals.append(v)
+                try:
+                    t = self.truth(v, p)
+                except Unsupported:
+                    break
+                assumed.append(t if is_and else z3.Not(t))
+            if len(vals) == len(e.values) and all(isinstance(v, (VBool,)) for v in vals):
                 ts = [self.truth(v, p) for v in vals]
                 return VBool(z3.And(*ts) if is_and else z3.Or(*ts))
-            vals0 = vals
+            vals0 = vals if len(vals) == len(e.values) else None
         # value-returning / side-effecting: evaluate left to right with forks
         cur = None
         for i, x in enumerate(e.values):
@@ -493,12 +516,12 @@ class ExprMixin:
             n = z3.Length(base.t)
             real = z3.If(i < 0, i + n, i)
             self.may_raise(p, z3.Or(real < 0, real >= n), "IndexError", ln)
-            return self.wrap_elem(base.t[real], base.elem)
+            return self.wrap_elem(base.t[real], base.elem, base.elem_cls)
         raise Unsupported(f"subscript of {base!r}")
 
-    def wrap_elem(self, t, elem):
+    def wrap_elem(self, t, elem, elem_cls=None):
         if elem == "obj":
-            return VSym(t, None)
+            return VSym(t, elem_cls)
         if elem == "str":
             return VStr(t)
         if elem == "bytes":
